@@ -34,6 +34,38 @@ fn staircase(l: usize, kinds: &[Kind]) -> Ontology {
     drive::build(&f, Mode::Minimal).expect("staircase ontology must build")
 }
 
+/// The same layout decoded from a v3 file in which leaves are flagged: leaf i is obsolete when i % 3 == 0 and
+/// carries a replacement (a neighbouring leaf) when i % 4 == 1. Enrichment counts terms as given; flags are
+/// not part of the definition. (HP:118 is added because the decoder installs the defaults.)
+fn staircase_flagged(l: usize, kinds: &[Kind]) -> Result<Ontology, String> {
+    let mut f = Facts::default();
+    f.version = (2024, 2, 29);
+    f.terms.push(Facts::term(1, "root"));
+    f.terms.push(Facts::term(118, "Phenotypic abnormality"));
+    f.edges.push((118, 1));
+    for i in 1..=l as u32 {
+        let mut t = Facts::term(LEAF0 + i, &format!("L{i}"));
+        t.obsolete = i % 3 == 0;
+        if i % 4 == 1 {
+            t.replacement = Some(LEAF0 + if i < l as u32 { i + 1 } else { i - 1 });
+        }
+        f.terms.push(t);
+        f.edges.push((LEAF0 + i, 1));
+    }
+    for &k in kinds {
+        for j in 1..=l as u32 {
+            for i in 1..=j {
+                f.anns.push(Facts::ann(k, REC0 + j, &format!("R{j}"), Some(LEAF0 + i)));
+            }
+        }
+    }
+    match drive::from_bytes(&crate::encode::encode(&f, &crate::encode::EncOpts::v(3))) {
+        Ok(Ok(o)) => Ok(o),
+        Ok(Err(e)) => Err(e),
+        Err(p) => Err(format!("panic: {p}")),
+    }
+}
+
 /// (id, count, pvalue, fold) per returned record
 fn run_enrichment(ont: &Ontology, kind: Kind, n_bg: usize, s: usize, n: usize) -> Vec<(u32, u64, f64, f64)> {
     // The collections are handed over in different shapes, chosen deterministically per call:
@@ -252,6 +284,34 @@ pub fn run(ctx: &mut Ctx) {
                 check_n_n(ctx, &ont, nmax, kind, big_n, n, &starts, &exact, true);
                 if big_n == 7 && n == 3 {
                     ctx.sample(|| json!({"kind": kind.name(), "N": big_n, "n": n, "window_starts": starts, "records": nmax}));
+                }
+            }
+        }
+    }
+    // ---- the same sweep on a decoded ontology whose leaves are partly obsolete and / or replaced
+    {
+        let lf = if thorough { 24 } else { 14 };
+        match staircase_flagged(lf, &KINDS) {
+            Err(e) => {
+                ctx.space("exact/flagged-terms", "decoded staircase with obsolete / replaced leaves");
+                ctx.violation("Ontology::from_bytes", "cannot decode a file laid out as documented", json!({"observed": e}));
+            }
+            Ok(fl) => {
+                for kind in KINDS {
+                    ctx.space(&format!("exact/{}/flagged-terms/N<={lf}", kind.name()), &format!("decoded (v3) staircase in which every 3rd leaf is obsolete and every 4th carries a replacement: all N <= {lf}, all n <= N, all window starts; records 1..{lf}"));
+                    for big_n in 1..=lf {
+                        for n in 1..=big_n {
+                            if !ctx.take() {
+                                continue;
+                            }
+                            ctx.state();
+                            let starts: Vec<usize> = (1..=big_n - n + 1).rev().collect();
+                            check_n_n(ctx, &fl, lf, kind, big_n, n, &starts, &exact, true);
+                            if big_n == 7 && n == 3 {
+                                ctx.sample(|| json!({"kind": kind.name(), "N": big_n, "n": n, "window_starts": starts, "records": lf, "obsolete_leaves": "every 3rd", "replaced_leaves": "every 4th + 1"}));
+                            }
+                        }
+                    }
                 }
             }
         }
